@@ -544,7 +544,16 @@ pub fn script(t: &mut Tape, fam: Fam, extreme: bool) -> Vec<Vec<u8>> {
                 .collect()
         }
     };
-    // script-level damage: drop / duplicate / swap
+    damage_script(t, &mut items);
+    items.truncate(12);
+    for d in &mut items {
+        d.truncate(65_507);
+    }
+    items
+}
+
+/// Script-level damage: drop / duplicate / swap replies, or repeat the whole script.
+pub fn damage_script(t: &mut Tape, items: &mut Vec<Vec<u8>>) {
     if !items.is_empty() {
         match t.draw(DATA, 8) {
             0 => {
@@ -568,7 +577,24 @@ pub fn script(t: &mut Tape, fam: Fam, extreme: bool) -> Vec<Vec<u8>> {
             _ => {}
         }
     }
-    items.truncate(12);
+}
+
+/// Damage a recorded valid reply sequence (the replies a reference-model server really sent in a
+/// valid conversation of this very entry point).
+pub fn damage_recorded(t: &mut Tape, mut items: Vec<Vec<u8>>, extreme: bool) -> Vec<Vec<u8>> {
+    let dmg = t.draw(DATA, 4); // 0: replay unchanged
+    for _ in 0 .. dmg {
+        if items.is_empty() {
+            break;
+        }
+        let i = t.draw(DATA, items.len() as u64) as usize;
+        let rounds = 1 + t.draw(DATA, 2);
+        for _ in 0 .. rounds {
+            mutate(t, &mut items[i], extreme);
+        }
+    }
+    damage_script(t, &mut items);
+    items.truncate(24);
     for d in &mut items {
         d.truncate(65_507);
     }
